@@ -230,6 +230,9 @@ type sessRec struct {
 	reqStamp atomic.Int64
 	reqNs    atomic.Int64
 	nSent    atomic.Int64 // messages handed to Send successfully
+	lastNs   atomic.Int64 // virtual time of the request / of the latest successful Send
+	times    []int64      // request time, then the time of every successful Send (written by the server task only)
+	endNs    atomic.Int64 // virtual time at which the stream ended
 	endStamp atomic.Int64
 	endKind  atomic.Pointer[string]
 	open     atomic.Bool
@@ -311,6 +314,7 @@ func (s *scripted) Subscribe(stream gpb.GNMI_SubscribeServer) error {
 	s.w.sess[id] = append(s.w.sess[id], rec)
 	end := func(kind string) {
 		rec.endKind.Store(&kind)
+		rec.endNs.Store(int64(s.w.x.R.Now()))
 		rec.endStamp.Store(simrt.Stamp())
 		rec.open.Store(false)
 	}
@@ -323,6 +327,8 @@ func (s *scripted) Subscribe(stream gpb.GNMI_SubscribeServer) error {
 	rec.target.Store(&tg)
 	rec.reqStamp.Store(simrt.Stamp())
 	rec.reqNs.Store(int64(s.w.x.R.Now()))
+	rec.lastNs.Store(int64(s.w.x.R.Now()))
+	rec.times = append(rec.times, int64(s.w.x.R.Now()))
 	rec.gotReq.Store(true)
 	for i, m := range se.Msgs {
 		if m.DelayNs > 0 {
@@ -351,6 +357,8 @@ func (s *scripted) Subscribe(stream gpb.GNMI_SubscribeServer) error {
 			return err
 		}
 		rec.nSent.Add(1)
+		rec.lastNs.Store(int64(s.w.x.R.Now()))
+		rec.times = append(rec.times, int64(s.w.x.R.Now()))
 	}
 	switch se.End {
 	case "err":
@@ -712,6 +720,63 @@ func (w *world) judge(x *common.Exec, acts [][]*actRec, quietNs int64, atQuiesce
 	for _, c := range cbs {
 		if c.kind == "monitorerror" || c.kind == "connecterror" {
 			x.Fault("callback:" + c.kind)
+		}
+	}
+
+	// ---- a stream is given up by the manager only for a cause: a Remove or
+	// Reconnect call for that target, or silence for at least the receive
+	// timeout in force (the watchdog is armed after the latest message was
+	// received, hence after it was sent).
+	for _, se := range sess {
+		if se.open.Load() || se.EndKind() != "cancelled" || !se.gotReq.Load() {
+			continue
+		}
+		x.Oblige(1)
+		name := se.Target()
+		caused := false
+		// the stream exists on the manager's side from the start of the
+		// attempt that opened it (the server sees the request later)
+		attempt := int64(0)
+		for _, as := range w.attempts {
+			for _, a := range as {
+				if a.name == name && a.stamp < se.reqStamp.Load() && a.stamp > attempt {
+					attempt = a.stamp
+				}
+			}
+		}
+		for _, a := range all {
+			if sc.Targets[a.act.T%len(sc.Targets)].Name != name {
+				continue
+			}
+			switch a.act.K {
+			case "remove", "reconnect":
+				if a.inv < se.endStamp.Load() && (!a.returned || a.ret > attempt) {
+					caused = true
+				}
+			}
+		}
+		if caused {
+			continue
+		}
+		var eff int64 = sc.RecvToNs
+		for _, t := range sc.Targets {
+			if t.Name == name && t.RecvToNs > 0 && !t.BadRecvTo {
+				eff = t.RecvToNs
+			}
+		}
+		// the longest silence of the stream before it was given up (a watchdog
+		// that has fired may be held up before it takes effect, so an earlier
+		// silence counts too)
+		silent := int64(0)
+		ts := append(append([]int64(nil), se.times...), se.endNs.Load())
+		for i := 1; i < len(ts); i++ {
+			if d := ts[i] - ts[i-1]; d > silent {
+				silent = d
+			}
+		}
+		if eff <= 0 || silent < eff {
+			x.Violate("C13/stream-given-up-without-cause", "the manager cancelled the stream of %s (server %d session %d, sent %v) although it was never silent for longer than %v, with no Remove or Reconnect call for that target under way; receive timeout in force: %v\n%s", name, se.server, se.seq, se.Sent(), time.Duration(silent), time.Duration(eff), dump())
+			return
 		}
 	}
 
